@@ -96,6 +96,7 @@ def shards(tier):
     for n in (130, 260, 300):
         out.append({'kind': 'many', 'n': n})
     out.append({'kind': 'border'})
+    out.append({'kind': 'skew'})
     for s in range(len(ROT_SHAPES)):
         out.append({'kind': 'rotseq', 'shape': s})
     return out
@@ -111,6 +112,12 @@ def run_shard(shard, ctx, tier):
             for strong_top in (0, 1):
                 for ds in (1, 4):
                     guarded_check(mod, {'border': d, 'strong_top': strong_top, 'ds': ds}, ctx)
+        return
+    if shard['kind'] == 'skew':
+        for sl in range(len(SKEW_SLOPES)):
+            for n in (2, 3, 4):
+                for ds in (1, 2):
+                    guarded_check(mod, {'skew': sl, 'n': n, 'ds': ds}, ctx)
         return
     if shard['kind'] == 'rotseq':
         for ds in (1, 4):
@@ -445,6 +452,25 @@ def check_rot(case, ctx):
     if [list(map(float, h)) for h in h1] != [list(map(float, h)) for h in h0]:
         ctx.violation('heights-match', f'{K}/heights-differ', f'{desc}: {h1} vs {h0}', case)
         return
+    # environment answer: the network runs out of memory (once) while this page is analysed.  The engine may report that; a layout it returns
+    # nevertheless is the layout of the page
+    if ds == 1 or case.get('same_row'):
+        from mc import faults
+        inj = faults.Injector([(eng.parsenet, 'get_maps_with_optimal_resolution')],
+                              lambda name: RuntimeError('CUDA out of memory. Tried to allocate 2.00 GiB (injected)'))
+        for kk, site, (what, val) in inj.explore(lambda: (ctx.reseed(), eng.detect(img.copy(), rot=k))[1]):
+            ctx.executed()
+            if kk is None:
+                continue
+            ctx.tag('network-out-of-memory-injected')
+            if what == 'raised':
+                continue
+            p2, b2, h2, t2 = val
+            if not close_result((p1, b1, h1, t1), (p2, b2, h2, t2)):
+                ctx.violation('rotated-pass-in-original-coordinates', f'{K}/layout-returned-after-an-out-of-memory-failure-differs',
+                              f'{desc}: the network call #{kk} raised an out-of-memory RuntimeError, detect() returned baselines '
+                              f'{[np.asarray(b).round(1).tolist() for b in b2]} instead of {[np.asarray(b).round(1).tolist() for b in b1]}', case)
+                return
     ctx.outcome((k, len(b1), len(p1)))
     if case.get('same_row'):
         ctx.tag('two-lines-starting-on-the-same-row')
@@ -528,6 +554,28 @@ def check_rotseq(case, ctx):
         if [list(map(float, h)) for h in h1] != [list(map(float, h)) for h in h0]:
             ctx.violation('heights-match', f'{K}/heights-differ', f'{desc}: pass {k}: {h1} vs {h0}', case)
             return
+        # environment answer: the network itself (inside the real TorchParseNet) runs out of memory once during this pass
+        if k == seq[-1] and ds == 1:
+            from mc import faults
+            inj = faults.Injector([(eng.parsenet, 'net')], lambda name: RuntimeError('CUDA out of memory. Tried to allocate 2.00 GiB (injected)'))
+
+            def again():
+                with contextlib.redirect_stdout(io.StringIO()):
+                    ctx.reseed()
+                    return eng.detect(page.copy(), rot=k)
+            for kk, site, (what, val) in inj.explore(again):
+                ctx.executed()
+                if kk is None or what == 'raised':
+                    if kk is not None:
+                        ctx.tag('network-out-of-memory-injected')
+                    continue
+                ctx.tag('network-out-of-memory-injected')
+                p2, b2, h2, t2 = val
+                if not close_result((p1, b1, h1, t1), (p2, b2, h2, t2)):
+                    ctx.violation('rotated-pass-in-original-coordinates', f'{K}/layout-returned-after-an-out-of-memory-failure-differs',
+                                  f'{desc}: pass {k}: the network call #{kk} raised an out-of-memory RuntimeError, detect() returned baselines '
+                                  f'{[np.asarray(b).round(1).tolist() for b in b2]} instead of {[np.asarray(b).round(1).tolist() for b in b1]}', case)
+                    return
     ctx.outcome(('rotseq', tuple(seq), found))
     if found >= len(seq):
         ctx.nontrivial(('rotseq', tuple(seq), case['shape'], ds, tuple(case['combo'])), 'orientations-in-turn-on-one-engine')
@@ -545,10 +593,79 @@ def check_many(case, ctx):
     b_list, h_list, t_list = engine().parse(maps.copy(), ds)
     ctx.executed()
     desc = f'{n} horizontal ridges, 14 rows apart, on a {shape[0]} x {shape[1]} map, ds={ds}'
-    if check_lines(b_list, h_list, t_list, ridges, ds, ctx, f'{ID}/parse/many-ridges', desc, case):
+    if check_lines(b_list, h_list, t_list, ridges, ds, ctx, f'{ID}/parse/many-ridges', desc, case) and \
+            reparse_same_array(engine(), maps, ds, (b_list, h_list, t_list), ridges, ctx, f'{ID}/parse/many-ridges', desc, case):
         ctx.outcome(('many', len(b_list)))
         ctx.nontrivial(('many', n, ds), 'several-ridges')
         ctx.tag('more-than-255-ridges' if n > 255 else 'more-than-127-ridges')
+
+
+def same_result(r1, r2):
+    (b1, h1, t1), (b2, h2, t2) = r1, r2
+    return len(b1) == len(b2) and all(np.array_equal(np.asarray(x), np.asarray(y)) for x, y in zip(b1, b2)) and \
+        all(np.array_equal(np.asarray(x), np.asarray(y)) for x, y in zip(h1, h2)) and all(np.array_equal(np.asarray(x), np.asarray(y)) for x, y in zip(t1, t2))
+
+
+def close_result(r1, r2, tol=7.0):
+    """the layout returned after a failure of the network may come from a second attempt at a (moderately) coarser resolution: same lines, coordinates
+    within 3 map px of an up to two times coarser map (+1), heights within 25 % + 2 px"""
+    (p1, b1, h1, t1), (p2, b2, h2, t2) = r1, r2
+    if len(b1) != len(b2) or len(p1) != len(p2):
+        return False
+    for x, y in zip(b1, b2):
+        x, y = np.asarray(x, dtype=float), np.asarray(y, dtype=float)
+        if np.abs(x[0] - y[0]).max() > tol or np.abs(x[-1] - y[-1]).max() > tol:
+            return False
+    for x, y in zip(h1, h2):
+        if any(abs(float(a) - float(b)) > 0.25 * abs(float(a)) + 2 for a, b in zip(x, y)):
+            return False
+    for x, y in zip(list(t1) + list(p1), list(t2) + list(p2)):
+        x, y = np.asarray(x, dtype=float), np.asarray(y, dtype=float)
+        if abs(x[:, 0].min() - y[:, 0].min()) > 2 * tol or abs(x[:, 0].max() - y[:, 0].max()) > 2 * tol or \
+                abs(x[:, 1].min() - y[:, 1].min()) > 2 * tol or abs(x[:, 1].max() - y[:, 1].max()) > 2 * tol:
+            return False
+    return True
+
+
+def reparse_same_array(eng, maps, ds, first, ridges, ctx, K, desc, case, times=6):
+    """the caller keeps the network output and decodes it again (other engine options, a second pass): every decoding of the same maps object
+    gives the lines of the first one"""
+    m = maps.copy()
+    for i in range(times):
+        ctx.reseed()
+        r = eng.parse(m, ds)
+        ctx.executed()
+        if i > 0 and not same_result(first, r):
+            ctx.violation('heights-match', f'{K}/same-maps-object-decoded-again-differs',
+                          f'{desc}: decoding #{i + 1} of the same maps array returns heights {[list(map(float, h)) for h in r[1]][:4]}..., the first decoding '
+                          f'{[list(map(float, h)) for h in first[1]][:4]}... ({len(r[0])} vs {len(first[0])} lines)', case)
+            return False
+    ctx.tag('same-maps-object-decoded-again')
+    return True
+
+
+SKEW_SLOPES = [0.06, -0.06, 0.03]          # rise over 410 px: 24.6 / 12.3 rows - more / less than the 15 rows between the lines
+
+
+def check_skew(case, ctx):
+    """a skewed page: long parallel ridges 15 rows apart whose rise over their length exceeds their distance (the bounding boxes of neighbouring
+    ridges overlap), every line with its own print size"""
+    sl, n, ds = SKEW_SLOPES[case['skew']], case['n'], case['ds']
+    shape = (60 + 15 * n + 30, 440)
+    hts = [(6.0, 2.0), (10.0, 5.0), (3.0, 3.0), (8.0, 4.0)]
+    top = 35 if sl > 0 else 35 + 26
+    ridges = [{'row': top + 15 * i, 'x0': 10, 'x1': 420, 'slope': sl, 'thick': 1, 'h': hts[i], 'ep': False} for i in range(n)]
+    ctx.state(('skew', case['skew'], n, ds))
+    maps = paint(ridges, shape)
+    ctx.reseed()
+    first = engine().parse(maps.copy(), ds)
+    ctx.executed()
+    desc = f'{n} parallel ridges of slope {sl}, 15 rows apart, x = 10..420, on a {shape[0]} x {shape[1]} map, ds={ds}'
+    if check_lines(first[0], first[1], first[2], ridges, ds, ctx, f'{ID}/parse/skewed-page', desc, case):
+        ctx.outcome(('skew', len(first[0])))
+        ctx.nontrivial(('skew', case['skew'], n, ds), 'several-ridges')
+        if abs(sl) * 410 > 15:
+            ctx.tag('skewed-page-neighbouring-ridges-overlap-in-rows')
 
 
 def check_border(case, ctx):
@@ -572,6 +689,8 @@ def check_border(case, ctx):
 def check_case(case, ctx):
     if 'border' in case:
         return check_border(case, ctx)
+    if 'skew' in case:
+        return check_skew(case, ctx)
     if 'many' in case:
         return check_many(case, ctx)
     if 'rotseq' in case:
@@ -594,6 +713,6 @@ def describe(tier):
                       'rotated_map_shapes': ROT_SHAPES},
         'assumptions': ['end points within 3 map px, rows within (1 + thickness/2) map px (+ slope x 3), heights exact for constant maps',
                         'the rotated pass is compared with the exact inverse rot90 of the layout decoded from the rotated image, tolerance 1 px'],
-        'min_nontrivial': 100, 'required_tags': ['orientations-in-turn-on-one-engine', 'several-ridges', 'with-end-point-responses', 'sloped-ridges', 'rotated-non-square-pages',
+        'min_nontrivial': 100, 'required_tags': ['same-maps-object-decoded-again', 'skewed-page-neighbouring-ridges-overlap-in-rows', 'network-out-of-memory-injected', 'orientations-in-turn-on-one-engine', 'several-ridges', 'with-end-point-responses', 'sloped-ridges', 'rotated-non-square-pages',
                           'two-lines-starting-on-the-same-row', 'print-size-changes-between-pages', 'adaptive-factor-changed', 'page-exceeds-the-pixel-budget', 'more-than-255-ridges', 'non-default-engine-options', 'ridges-next-to-the-map-borders'],
     }
